@@ -50,6 +50,9 @@ def denote : Sp → FieldDecl
   | .scls d _ => d
   /- "c is a tuple of 3: integer, string, float: Tuple[Integer, String, Float]" - one field per position -/
   | .tup585 x y | .tupTyping x y | .tupSub x y | .tupCall x y => .tuplePos [denote x, denote y] false
+  /- "a: Integer(maximum=100) | Foo | str | 529 … a can be assigned … the number 529": the literal is one more
+     alternative, an Enum of exactly that value -/
+  | .pipeLit x v _ => .anyOf [denote x, .enumLit [v]]
 
 /-! ### the spelling forms of one meaning -/
 
@@ -108,6 +111,12 @@ inductive SameMeaning : Sp → Sp → Prop where
   /-- `tuple[X, Y] ~ typing.Tuple[X, Y] ~ Tuple[X, Y] ~ Tuple(items=[X, Y])` -/
   | tup (f g : CollForm) {x x' y y' : Sp} :
       SameMeaning x x' → SameMeaning y y' → SameMeaning (mkTup f x y) (mkTup g x' y')
+  /-- `X | 529 ~ AnyOf[X, Enum(values=[529])]` (and `X | 529 ~ X' | 529`) -/
+  | pipeLit {x y : Sp} (v : PyVal) (n m : Nat) : SameMeaning x y → SameMeaning (.pipeLit x v n) (.pipeLit y v m)
+  | pipeLitAnyOf {x y : Sp} (v : PyVal) (n m : Nat) :
+      SameMeaning x y → SameMeaning (.pipeLit x v n) (.anyOf y (.lit (.enumLit [v]) m))
+  | anyOfPipeLit {x y : Sp} (v : PyVal) (n m : Nat) :
+      SameMeaning x y → SameMeaning (.anyOf x (.lit (.enumLit [v]) m)) (.pipeLit y v n)
 
 /-! ### the supported region -/
 
@@ -116,6 +125,7 @@ def isFieldExpr : Sp → Bool
   | .fcls _ | .finst _ | .lit _ _ | .bareCls _ | .bareInst _ | .sub _ _ | .call _ _
   | .mapBare | .mapInst | .mapSub _ _ | .mapCall _ _ | .anyOf _ _ | .tupSub _ _ | .tupCall _ _ => true
   | .pipe x _ => isFieldExpr x
+  | .pipeLit x _ _ => isFieldExpr x
   | _ => false
 
 /-- the expression is the name of a Structure class (usable wherever a Field class is, except that it has no
@@ -185,6 +195,7 @@ def supported (tm : TypeMap) : Sp → Bool
   | .tup585 x y | .tupTyping x y => supported tm x && supported tm y
   | .tupSub x y => supported tm x && supported tm y && itemOk x && itemOk y
   | .tupCall x y => supported tm x && supported tm y && isFieldOrStruct x && isFieldOrStruct y
+  | .pipeLit x v _ => supported tm x && isFieldExpr x && scalarDefault v
   | .optional x => supported tm x && !unionLike x
   /- `None` may be either member (`Union[None, int]`, `AnyOf[None, Integer]`, `None | int`) -/
   | .union x y =>
@@ -263,6 +274,7 @@ def documentedSp : Sp → Bool
   | .scls d _ => isStructDecl d
   | .tup585 x y | .tupTyping x y | .tupSub x y => documentedSp x && documentedSp y
   | .tupCall x y => documentedSp x && documentedSp y && isFieldOrStruct x && isFieldOrStruct y
+  | .pipeLit x v _ => documentedSp x && isFieldExpr x && scalarDefault v
   | .optional x => documentedSp x
   | .union x y | .anyOf x y | .pipe x y =>
     (isNoneLit x || documentedSp x) && (isNoneLit y || documentedSp y) && !(isNoneLit x && isNoneLit y)
